@@ -50,7 +50,7 @@ def reflPat : List Str := [s "réfl"]
 def intrPat : List Str := [s "intr"]
 
 /-- `isReflexive()` without a parent: `pat is not None and len(pat)==1 and pat[0]=="réfl"` -/
-def FrVerb.isReflexive (v : FrVerb) : Bool := v.pat == some reflPat
+def FrVerb.isReflexive (v : FrVerb) : Bool := decide (v.pat = some reflPat)
 
 /-- `V(lemma,"fr")` [`.aux(a)`] -/
 def mkVerb (rules : Rules) (lemma : Str) (entry : Option Verb) (auxOpt : Option Str) : FrVerb :=
@@ -114,6 +114,9 @@ def conjugateSimple (rules : Rules) (env : FrEnv) (v : FrVerb) (pe : Person) (n 
                 .ok (morphoError lemma w)                              -- "pas de flexion pour un participe passé d'un verbe intransitif"
               else .ok { toks := [selfTok v (v.st.stem ++ termPP)], warns := w }
           | .b | .pr =>
+            match row with
+            | .null => .ok (morphoError lemma w)                       -- "verbe défectif à ce temps"
+            | _ =>
             match row.concat v.st.stem with
             | .error e => .error e
             | .ok r =>
@@ -151,6 +154,21 @@ def auxAsEtre (rules : Rules) (env : FrEnv) (reflexive : Bool) : FrVerb :=
     aux := e.aux
     hAsp := e.hAsp }
 
+/-- `isinstance(row, list) and row[i] is None` (line 104) -/
+def rowDefective (row : Row) (i : Nat) : Except Crash Bool :=
+  match row with
+  | .list _ =>
+    match row.at i with
+    | .error e => .error e
+    | .ok cell => .ok cell.isNone
+  | _ => .ok false
+
+/-- lines 107-125: the auxiliary, and the gender and number that the participle will agree with -/
+def chooseAux (rules : Rules) (env : FrEnv) (v : FrVerb) (g : Gender) (n : Num) : FrVerb × Gender × Num :=
+  if v.isReflexive then (auxAsEtre rules env true, g, n)          -- + `aux.setProp("pat", ["réfl"])`
+  else if v.aux = s "êt" then (auxAsEtre rules env false, g, n)
+  else (mkVerb rules (s "avoir") env.avoir none, Gender.m, Num.s)  -- `g = "m"; n = "s"` (no `cod`)
+
 /-- `TerminalFr.conjugate` -/
 def conjugate (rules : Rules) (env : FrEnv) (lemma : Str) (entry : Option Verb) (auxOpt : Option Str)
     (pe : Person) (n : Num) (g : Gender) (t : Tense) : Except Crash Out :=
@@ -170,22 +188,12 @@ def conjugate (rules : Rules) (env : FrEnv) (lemma : Str) (entry : Option Verb) 
           match tb.row? ta.code with
           | none => .error .keyError                                   -- conjugationTable["t"][tempsAux]
           | some row =>
-            -- `isinstance(row, list) and row[idx] is None`
-            let defective : Except Crash Bool :=
-              match row with
-              | .list _ => match row.at (idx6 pe n) with
-                | .error e => .error e
-                | .ok cell => .ok cell.isNone
-              | _ => .ok false
-            match defective with
+            match rowDefective row (idx6 pe n) with
             | .error e => .error e
             | .ok true => .ok (morphoError lemma w)                    -- "conjugaison impossible à ces personnes et nombres"
             | .ok false =>
-              -- auxiliary, and the gender/number the participle agrees with
-              let (auxV, gpp, npp) :=
-                if v.isReflexive then (auxAsEtre rules env true, g, n)
-                else if v.aux = s "êt" then (auxAsEtre rules env false, g, n)
-                else (mkVerb rules (s "avoir") env.avoir none, Gender.m, Num.s)
+              match chooseAux rules env v g n with
+              | (auxV, gpp, npp) =>
               match realizeSimple rules env auxV pe n g ta with
               | .error e => .error e
               | .ok auxR =>
